@@ -59,8 +59,9 @@ inline void gen_params(Src &s, Params &p, size_t n, size_t total, bool allow_cla
     p.bucket = n >= 2 ? (uint32_t)n : 2;
     for (uint32_t d = 2 + s.byte() % 7, k = 0; k < 16; k++, d++) if (d >= 2 && n % d == 0) { p.bucket = d; break; }
   }
-  // bucket sizes at which MEMALLOC * bucketsize leaves 32 bits (2^17 and 2^18 with the default 32768)
-  if ((b == 7 || b == 8) && n % 4 == 3) p.bucket = 131072u * (1 + (uint32_t)(n / 4) % 2);
+  // the bucket size at which MEMALLOC * bucketsize leaves 32 bits (2^17 with the default 32768; 2^18 would
+  // reserve 8 GB, which the sanitizer's allocator refuses on a loaded machine)
+  if ((b == 7 || b == 8) && n % 4 == 3) p.bucket = 131072u;   // reserves exactly 4 GB (untouched) once the product is right
   if (p.bucket < 2) p.bucket = 2;
   if (allow_clamp) {
     uint32_t c = s.pick({200, 28, 28});
